@@ -45,6 +45,8 @@ FIXED = [
     ("0:md-0:dm", "ii", "u", "s0_s1_u.k.u.a", ""),
     ("0:d-1:d-0:m", "qi", "u", "s0.s1_u.a_s2.u.k", ""),
     ("0:dd-1:m", "ii", "u", "s0_u.a_s1.u.a_c00", ""),
+    ("0:m-0:m-0:mm-0:m", "ii", "u", "s0.s1.s2_c10.c20_a.s3.a.k", ""),
+    ("0:nn", "qi", "u", "s0_t00.h0.v00.c00.r0.v01_c01", ""),
 ]
 # executions whose only purpose is to show the mismatch path (kept apart: every one of them trips the known slot leak)
 MISMATCH = [
@@ -60,6 +62,13 @@ STAGED = {
     "h3b_f": ("0:m-0:m-0:m-0:m-0:m", "ii", "u", "s0.s1.s2.p2_w2.a_w1.s3.s4.p1", "de:a:1:1"),
     "h3b_k": ("0:m-0:m-0:m", "ii", "u", "s0.s1.p2_w2.k.k_w1.s2.p1", "de:k:1:1"),     # same window in wake_one: must be harmless
     "cx_wall": ("0:m-0:m-0:m", "iq", "u", "s0.s1.s2.p2_w2.c10_w1.a.p1", "rm:c:1:1"),  # canceller parked while wake_all runs
+    # cancel-vs-wake_all overlap FOLLOWED by new waits and wakes on the same futex (stale links / freed nodes spliced back)
+    "cx_wall_then": ("0:m-0:m-0:m-0:m-0:m", "ii", "u", "s0.s1.s2.p2_w2.c20.p3_w1.a.p1.w3.s3.s4.a.k", "rm:c:1:1"),
+    "cx_wall_then_q": ("0:m-1:m-0:m-1:mm-0:m", "iq", "u", "s0.s1.s2.p2_w2.c10.p3_w1.a.p1.w3.s3.s4.k.a", "rm:c:1:1"),
+    # cancellable on a backlogged queued executor: the inner awaitable completes (proxy finishes standalone and frees its
+    # frame) before the cancelled awaiter's queued resumption runs
+    "cq_stale": ("0:n", "qi", "u", "s0.t00.h0.v00.c00.r0", ""),
+    "cq_stale2": ("0:nn-0:n", "qi", "u", "s0.s1.t00.t10.h0.v00.c00.c10.v10.r0.v01", ""),
     "cx_two": ("0:m-0:m", "ii", "u", "s0.s1.p2_w2.c00_w1.c10.k.p1", "rm:c:1:1"),     # two cancellers and a wake_one
 }
 EXPECT = {"h3a": "WakeOneWakesOneIfAnyNotCancelling/cancel_of_other_waiter_overlaps",
